@@ -83,8 +83,15 @@ _F = ("{r}id", "{r}id * {r}bucketrow", "{r}id * ({r}starttime % 1000003)",
 
 
 def api_dump(conn):
-    bk = conn.execute(_BK).fetchall()
-    n = conn.execute("SELECT count(*) FROM events").fetchone()[0]
+    """A file in which the tables do not (yet) exist reads as empty tables: "the store was
+    opened on this file" promises that the acknowledged writes are in THIS file."""
+    try:
+        bk = conn.execute(_BK).fetchall()
+        n = conn.execute("SELECT count(*) FROM events").fetchone()[0]
+    except sqlite3.OperationalError as ex:
+        if "no such table" not in str(ex):
+            raise
+        return (0, 0, hash(((), ())))
     if n <= SMALL:
         ev = conn.execute(_EV).fetchall()
     else:
@@ -134,9 +141,21 @@ class FastRecorder(lib.Recorder):
     `PRAGMA data_version` says that a commit became visible."""
 
     def __init__(self, storage, path, clock):
-        super().__init__(storage, path, clock)
-        self.shadow.db.close()
-        self.shadow = TrigShadow(lib.schema_of(self.c2))
+        # (c06_lib.Recorder.__init__ with the other shadow; the schema is the one the storage's
+        # own connection has, the observer reads the file that was asked for)
+        self.st = storage
+        self.clock = clock
+        self.c2 = sqlite3.connect(path, isolation_level=None)
+        self.shadow = TrigShadow(lib.schema_of(storage.conn))
+        self.micro, self.issue_time, self.obs, self.commit_stmts, self.calls = [], [], [], [], []
+        self.failed_stmts = 0
+        self.failed_at, self.begin_at, self.anomalies = [], [], []
+        self.in_cc = self.in_commit = self.test_done = False
+        self.slots = {}
+        self.stray_readings = 0
+        clock.hook = self.on_reading
+        storage._rec = self
+        storage.conn.set_trace_callback(self.on_stmt)
         self._dv = None
         self._dig = None
         self.n_scans = 0
@@ -269,7 +288,11 @@ class ApiRunner(lib.Runner):
         return out
 
     def finish(self):
-        own_ok = self.rec.close()
+        try:
+            own_ok = self.rec.close()
+        except sqlite3.Error as ex:
+            self.rec.anomalies.append(f"the store's connection could not be read at the end: {type(ex).__name__}: {ex}")
+            own_ok = False
         try:
             self.st.conn.close()
         except Exception:
@@ -364,8 +387,8 @@ def session_violations(se):
     return out
 
 
-def replay_obj(se, extra=None):
-    case = {"stores": se.stores, "steps": se.steps}
+def replay_obj(se, extra=None, steps=None):
+    case = {"stores": se.stores, "steps": se.steps if steps is None else steps}
     o = {"session": case, "rerun": "PYTHONPATH=%s:%s /venv/bin/python -m harness.c06_api replay '%s'" % (
         common.REPO, common.VERIF, json.dumps(case))}
     if extra:
@@ -373,18 +396,38 @@ def replay_obj(se, extra=None):
     return o
 
 
+def _fresh_process(stores, steps, signature):
+    """the session replayed in a process of its own -> the oracle's description, or None"""
+    p = subprocess.run([sys.executable, "-m", "harness.c06_api", "replay", json.dumps({"stores": stores, "steps": steps})],
+                       cwd=common.VERIF, stdout=subprocess.PIPE, stderr=subprocess.DEVNULL, text=True, timeout=600)
+    for ln in p.stdout.splitlines():
+        if ln.startswith("VIOLATES " + signature + " - "):
+            return ln.split(" - ", 1)[1]
+    return None
+
+
 def shrink_session(sq, Event, se, signature):
-    def still(cand):
+    """-> (steps, description or None).  Shrinks in this process as long as the failure can
+    be reproduced here; a failure that depends on what this process has done before (or that
+    leaves it unusable) is shrunk by replaying candidates in fresh processes, which is what the
+    replay command does."""
+    def here(cand):
         try:
             s2 = run_session(sq, Event, se.stores, cand)
         except Exception:
-            return False
-        return any(s == signature for s, _ in session_violations(s2))
+            return None
+        d = [d for s, d in session_violations(s2) if s == signature]
+        return d[0] if d else None
     if len(se.steps) > 400:
-        return se
-    budget = 150 if sum(len(r.rec.issue_time) for r in se.runners) < 3000 else 25
-    steps = common.shrink_list(se.steps, still, max_steps=budget)
-    return run_session(sq, Event, se.stores, steps)
+        return se.steps, None
+    big = sum(len(r.rec.issue_time) for r in se.runners) >= 3000
+    if here(se.steps):
+        steps = common.shrink_list(se.steps, here, max_steps=25 if big else 150)
+        return steps, here(steps)
+    if not _fresh_process(se.stores, se.steps, signature):
+        return se.steps, None                 # reproducible only after what this process did before
+    steps = common.shrink_list(se.steps, lambda c: _fresh_process(se.stores, c, signature), max_steps=10 if big else 40)
+    return steps, _fresh_process(se.stores, steps, signature)
 
 
 # ---------------------------------------------------------------------------
@@ -586,6 +629,33 @@ def sessions(rng, quick):
     corpus = {name: h for name, _, h in gen.corpus() if callable(h)}
     out = []
     profiles = ["mixed", "burst", "trickle", "bulk"]
+    # two stores alive at once, first of all (nothing has run in this process yet): bursts of 30
+    # single-event writes in turn (each store must flush on ITS 51st pending write whatever the
+    # other one does), then interleaved histories
+
+    def h_turns(runners):
+        for w in (0, 1):
+            yield (w, MS, 0, ("create_bucket", "b"))
+        for turn in range(8):
+            w = turn % 2
+            for k in range(30):
+                ids = runners[w].event_ids("b")
+                yield (w, MS, 0, [("insert_one", "b"), ("replace_last", "b"), ("delete", "b", ids[0] if ids else 1)][k % 3]
+                       if turn >= 4 else ("insert_one", "b"))
+        yield (0, MS, 0, ("delete_bucket", "b"))
+        yield (1, 12 * S, 0, ("insert_one", "b"))
+    for a, b in ((0, 2), (0, 1), (1, 0)):
+        out.append((f"api-pair:{OPTION_SETS[a][0]}+{OPTION_SETS[b][0]}:turns",
+                    [store_desc("datastore", OPTION_SETS[a][1]), store_desc("datastore", OPTION_SETS[b][1])], h_turns))
+    pairs = [(1, 0), (0, 1), (1, 2), (1, 1), (2, 0)]
+    for i, (a, b) in enumerate(pairs if quick else pairs * 8):
+        (na, oa), (nb, ob) = OPTION_SETS[a], OPTION_SETS[b]
+        if i % 2 == 0:
+            hs = [h_ack, corpus["threshold-mixed-51"]]
+        else:
+            hs = [gen.random_history(rng, profiles[i % 4]), gen.random_history(rng, profiles[(i + 1) % 4])]
+        out.append((f"api-pair:{na}+{nb}:{i}", [store_desc("datastore", oa), store_desc("datastore", ob)],
+                    _interleave(rng, hs)))
     # every option combination through Datastore, in changing order (one store after another
     # in one process: whatever outlives a store is met by the next one)
     order = [OPTION_SETS[i] for i in (0, 1, 2, 1, 0, 2, 1, 1, 0)]
@@ -616,31 +686,6 @@ def sessions(rng, quick):
     # without filepath= (the data directory's default file, migration check included)
     for on, opts in OPTION_SETS:
         out.append((f"api-default-file:{on}:ack", [store_desc("datastore", opts, filepath=False)], _single(h_ack)))
-    # two stores alive at once: bursts of 30 single-event writes in turn (each store must flush on
-    # ITS 51st pending write whatever the other one does), then interleaved histories
-    def h_turns(runners):
-        for w in (0, 1):
-            yield (w, MS, 0, ("create_bucket", "b"))
-        for turn in range(8):
-            w = turn % 2
-            for k in range(30):
-                ids = runners[w].event_ids("b")
-                yield (w, MS, 0, [("insert_one", "b"), ("replace_last", "b"), ("delete", "b", ids[0] if ids else 1)][k % 3]
-                       if turn >= 4 else ("insert_one", "b"))
-        yield (0, MS, 0, ("delete_bucket", "b"))
-        yield (1, 12 * S, 0, ("insert_one", "b"))
-    for a, b in ((0, 2), (0, 1), (1, 0)):
-        out.append((f"api-pair:{OPTION_SETS[a][0]}+{OPTION_SETS[b][0]}:turns",
-                    [store_desc("datastore", OPTION_SETS[a][1]), store_desc("datastore", OPTION_SETS[b][1])], h_turns))
-    pairs = [(1, 0), (0, 1), (1, 2), (1, 1), (2, 0)]
-    for i, (a, b) in enumerate(pairs if quick else pairs * 8):
-        (na, oa), (nb, ob) = OPTION_SETS[a], OPTION_SETS[b]
-        if i % 2 == 0:
-            hs = [h_ack, corpus["threshold-mixed-51"]]
-        else:
-            hs = [gen.random_history(rng, profiles[i % 4]), gen.random_history(rng, profiles[(i + 1) % 4])]
-        out.append((f"api-pair:{na}+{nb}:{i}", [store_desc("datastore", oa), store_desc("datastore", ob)],
-                    _interleave(rng, hs)))
     return out
 
 
@@ -824,9 +869,8 @@ def _report(ck, sq, Event, name, se, seen):
             ck.count("api:further-failing-histories:" + sig)
             continue
         seen.add(sig)
-        s2 = shrink_session(sq, Event, se, sig)
-        vv = [d for s, d in session_violations(s2) if s == sig]
-        ck.failing_input(sig, f"{name}: {vv[0] if vv else desc}", replay_obj(s2 if vv else se, {"found_in": name}))
+        steps, d = shrink_session(sq, Event, se, sig)
+        ck.failing_input(sig, f"{name}: {d or desc}", replay_obj(se, {"found_in": name}, steps if d else None))
     return viol
 
 
